@@ -257,6 +257,18 @@ func genPersistCase(r *rand.Rand, cfg Cfg) Case {
 				nroot++
 			}
 		}
+		if r.Intn(3) == 0 {
+			// a clone of the clean (just persisted or just reloaded) tree is itself clean: persisting it
+			// writes nothing and returns the same root; after a few changes it is incremental
+			ops = append(ops, "clone 0 1", "stat 1")
+			if r.Intn(2) == 0 {
+				for i := 0; i < 1+r.Intn(3); i++ {
+					ops = append(ops, opIns(1, pick(r, uni), uint64(6+r.Intn(2))))
+				}
+			}
+			ops = append(ops, fmt.Sprintf("roots 1 %d", nroot+1), "stat 1")
+			nroot++
+		}
 		nroot++
 	}
 	ops = append(ops, "iter 0")
